@@ -25,7 +25,8 @@ def dag(w):
         Inst("l2", leaf, {"bb": Anon((("x", Sig("a")), ("y", PRef("l1", "g")))), "g": PRef("l1", "g")})])
     topa = Mod("TopA", ports=[("s", w), ("t", 1)], buns=[("tb", B, False)], insts=[
         Inst("m0", mid, {"a": Sig("s"), "g": Sig("t"), "mb": Bun("tb")}),
-        Inst("lx", leaf, {"bb": PRef("m0", "mb"), "g": Sig("t")})])
+        Inst("lx", leaf, {"bb": PRef("m0", "mb"), "g": Sig("t")}),
+        Inst("ln", leaf, {"bb": NC(5), "g": Sig("t")})])
     topb = Mod("TopB", ports=[("s", w), ("t", 1)], buns=[("pb", B, True)], insts=[
         Inst("m0", mid, {"a": Sig("s"), "g": Sig("t"), "mb": Bun("pb")}),
         Inst("m1", mid, {"a": Sig("s"), "g": PRef("m0", "g"), "mb": Bun("pb")})])
